@@ -10,7 +10,9 @@ COQ = os.path.join(VERIF, 'coq')
 
 FLAVORS = {
     'plain': ['-O1'],
-    'asan': ['-O1', '-g', '-fsanitize=address,undefined', '-fno-sanitize-recover=all', '-D_GLIBCXX_ASSERTIONS', '-fno-omit-frame-pointer'],
+    # memory errors only (C13/C16): address + bounds; signed overflow and float casts are C19's subject (flavor 'ubsan')
+    'asan': ['-O1', '-g', '-fsanitize=address,bounds', '-fno-sanitize-recover=all', '-D_GLIBCXX_ASSERTIONS', '-fno-omit-frame-pointer'],
+    'ubsan': ['-O1', '-g', '-fsanitize=undefined', '-fno-sanitize-recover=all'],
     'tsan': ['-O1', '-g', '-fsanitize=thread'],
     'O0': ['-O0'],
     'O3': ['-O3'],
